@@ -80,6 +80,17 @@ def gen_cases(rng, quick, maxl):
         B = pl.rand_shell(rng, LB, [C[i] - d[i] for i in range(3)])
         B["prims"][0][0] = A["prims"][0][0]
         cases.append(dict(maxLB=maxl, maxLU=maxl, ecp=U, A=A, B=B, kind=["mirror", "mirror"]))
+    # one shell exactly on the ECP, the other 1-3 bohr away with a tight primitive: the on-centre radial quadrature does not converge
+    # on its small grid and falls back to the big one (a branch ordinary exponents never reach), in both argument orders
+    for i_ in range(2 if quick else 12):
+        LA, LB = rng.randint(0, min(2, maxl)), rng.randint(0, min(3, maxl))
+        C = [rng.uniform(-1, 1) for _ in range(3)]
+        U = pl.rand_ecp(rng, rng.randint(1, min(3, maxl)), C)
+        on = pl.rand_shell(rng, LA, list(C))
+        off = pl.rand_shell(rng, LB, pl.place(rng, C, "general", 1.0, 3.0))
+        off["prims"][0][0] = 10 ** rng.uniform(1.3, 2.3)
+        A, B = (on, off) if i_ % 2 == 0 else (off, on)
+        cases.append(dict(maxLB=maxl, maxLU=maxl, ecp=U, A=A, B=B, kind=["on", "tight"] if i_ % 2 == 0 else ["tight", "on"]))
     cases.sort(key=lambda c: (c["maxLB"], c["maxLU"]))
     return cases
 
